@@ -89,6 +89,17 @@ CHECKS = {
     note="Assumed: A8/A12 np.random.random_sample() in [0,1), randint(low, high) in [low, high); A10 the NumberRange schema leaves numeric start/stop; A1 reals. Everything that is numpy linear "
          "algebra (apply_symmetry, normalize, make_det_one/zero, RandomFunction's closure) is outside the value model of the verifier: bounded tier only. Orthogonal/unitary samplers need scipy (absent).",
     design="6/C12"),
+ 'C06': dict(
+    technique="contract-based deductive verification (pyvc on the real Munkres helper methods: nested-loop invariants over n x n list-of-lists matrices, frames); exhaustive/bounded oracle checks of compute() as stand-in for the steps not yet under contract",
+    text="Proved for every n and every real n x n working matrix (stage 1 of DESIGN 6/C06): __find_star_in_row / __find_star_in_col / __find_prime_in_row return the FIRST index carrying the "
+         "mark or -1 and write nothing; __clear_covers and __erase_primes reset exactly what they name (frame: only the cover lists / the rows of `marked`); __find_smallest returns a lower "
+         "bound of every uncovered cell; __step6 performs the dual update exactly -- C'[i][j] = C[i][j] + m[row i covered] - m[column j uncovered] with m <= every uncovered cell -- leaves covers, "
+         "marks and row objects untouched, and raises UnsolvableMatrix only when no cell would change. These are obligations I1/I2-preservation of the Hungarian invariant for step 6. "
+         "NOT proved (bounded only): steps 1-5, the step machine, termination, completeness and optimality of compute(), pad_matrix, reuse of one solver; decided by exhaustive "
+         "enumeration of all matrices <= 3x3 over {0,1,2} and 4x4 over {0,1} plus random matrices against a subset-DP oracle.",
+    note="Assumed: A1 (equality-to-zero tests on floats are exact in the real model; 'up to rounding' is not decided); matrices contain no DISALLOWED sentinel (the graders never produce one). "
+         "The Lean weak-duality lemma of DESIGN Appendix A is not linked yet because steps 4/5 are not under contract: optimality is a bounded claim only.",
+    design="6/C06"),
 }
 
 NOT_YET = {}
